@@ -139,3 +139,15 @@ PROPS.update({
    rule="three scripted clients send queries from a grammar (one to three questions with compression, 253/255-octet names, root, mixed case, non-standard opcodes, QR set, cut at any byte, QDCOUNT lies, self / out-of-range / mid-label compression pointers, records in answer/authority sections, bit flips, noise, two OPT records) as UDP datagrams and as TCP length-prefixed streams cut at arbitrary points (also zero-length and lying prefixes), connections closed or reset mid-message; the reference reading of each query says whether a server may accept it; the user callback must run exactly once for each well-formed standard query with exactly its questions, never for responses, cut messages or other opcodes (those get NOTIMPL); the OPT size bounds the UDP response; ASan and the allocator ledger watch memory; non-trivial when a query was sent; distinct = distinct trace hashes among non-trivial runs",
    components=dict(real=REAL_DNS, simulated=SIM_DNSS, stubbed=[]), assumptions=ASSUME_DNS, expected_probes=["notimpl-response", "server-closed-tcp", "client-closed-tcp"]),
 })
+REAL_THR = REAL_CORE + ["bufferevent_pair.c / bufferevent.c / buffer.c (thread-safe pair written from other threads)"]
+SIM_THR = ["threads: real pthreads of which exactly one runs at a time; every hand-over (at lock acquire/release, condition wait/signal, the loop's blocking wait, explicit yields inside callbacks and between operations, sleeps) is decided by the run's PRNG (thr/thr.cpp)",
+           "locks and condition variables (simulator-owned, with owner / recursion / waiters: evthread_set_lock_callbacks, evthread_set_condition_callbacks, evthread_set_id_callback)", "monotonic clock (virtual; moves only when every thread is blocked)", "the blocking wait of each backend", "allocator (ledger)"]
+ASSUME_THR = ["pre-emption happens at synchronisation points, at the loop's wait and at explicit yields (inside callbacks, between worker operations), not at arbitrary instructions; no race detector runs (the TSan configuration of the design is not built)",
+              "each event is operated on by one worker thread (its owner), which makes the model of 'armed / not armed' exact; the loop thread runs the callbacks",
+              "sampling of interleavings by seeded search, not enumeration"]
+PROPS.update({
+ "C09": dict(level="exploration", stages=lambda tier: [dict(name="h_thr", harness="h_thr", count=20000 if tier == "quick" else 300000, tlimit=40 if tier == "quick" else 500)],
+   rule="one loop thread in event_base_loop(EVLOOP_NO_EXIT_ON_EMPTY) with a one-hour timer as the only thing it would wake up for, 1-3 worker threads each owning some of 1-6 events (timers, read events on pipes, persistent or not, callbacks that yield 0-3 times in the middle) and doing event_add (with and without timeout), event_del / event_del_block / event_del_noblock, event_active, writes to the pipes and to a thread-safe bufferevent pair, with yields and sleeps in between; stickiness of the scheduler 0-90 %; oracles: a callback runs on the loop thread only, never re-entered, never after a blocking delete returned (until its owner arms the event again), a blocking delete never returns while the callback runs, every add / activation / readable fd is acted on at the virtual instant it becomes due (not at the one-hour timer), the loop ends on loopbreak from another thread, bytes written into the pair arrive, the base passes its own consistency check, locks are released, the scheduler finds no deadlock and the loop never spins; non-trivial when cross-thread operations happened and the baton changed hands more than 4 times; distinct = distinct trace hashes among non-trivial runs (worker classes without locks skip the run)",
+   components=dict(real=REAL_THR, simulated=SIM_THR, stubbed=["evthread_pthread.c (replaced by the simulator's lock and condition callbacks)"]), assumptions=ASSUME_THR,
+   expected_probes=["del-while-callback-running"]),
+})
